@@ -101,8 +101,11 @@ def prepare_repo():
     """translator + st_config.h from the repository's own cmake feature detection"""
     with Lock('prepare' + ('' if REPO == '/repo' else hashlib.sha1(REPO.encode()).hexdigest()[:10])):
         rc, out = sh([sys.executable, os.path.join(VERIF, 'tools/gen_from_source.py'), REPO, VERIF], timeout=300)
+        tmsg = ''
         if rc != 0:
-            return False, 'translator failed:\n' + out
+            # the tie "regenerated from source" is broken; the harness is still configured and built so that the
+            # violation search can run the implementation against the Spec oracle (with the last good generated files)
+            tmsg = 'translator failed:\n' + out
         cfg = cfg_dir()
         stamp = os.path.join(cfg, 'stamp')
         want = file_hash([os.path.join(REPO, 'CMakeLists.txt'), os.path.join(REPO, 'include/st_config.h.in')]) + REPO
@@ -114,6 +117,8 @@ def prepare_repo():
             if rc != 0 or not os.path.exists(os.path.join(cfg, 'include/st_config.h')):
                 return False, 'cmake configure failed:\n' + out
             open(stamp, 'w').write(want)
+    if tmsg:
+        return False, tmsg
     return True, ''
 
 
